@@ -990,6 +990,7 @@ pub fn main_tess(args: &[String]) -> i32 {
     let mut count = 30usize;
     let mut nmax = 24usize;
     let mut inputs_path: Option<String> = None;
+    let mut extra_onwall = false;
     let mut closepairs = 0usize;
     let mut i = 0;
     while i < args.len() {
@@ -1002,6 +1003,7 @@ pub fn main_tess(args: &[String]) -> i32 {
             "--nmax" => { nmax = args[i + 1].parse().unwrap(); i += 1 }
             "--closepairs" => { closepairs = args[i + 1].parse().unwrap(); i += 1 }
             "--inputs" => { inputs_path = Some(args[i + 1].clone()); i += 1 }
+            "--extra-onwall" => { extra_onwall = true }
             _ => {}
         }
         i += 1;
@@ -1012,6 +1014,25 @@ pub fn main_tess(args: &[String]) -> i32 {
         Some(p) => read_inputs(&p),
         None => float_inputs(seed, count, nmax, &[1, 2, 3, 3]),
     };
+    // C13 only: one more reflective 3D input with generators exactly on walls, away from the middle of their wall (the stored
+    // faces of such cells and the integrator's face integrals must agree); drawn from its own random stream
+    if extra_onwall && inputs_from_file.is_none() {
+        let mut r3 = StdRng::seed_from_u64(seed ^ 0x0A11_C13);
+        let anchor = DVec3::new(1.3, 2.1, 1.7);
+        let width = DVec3::splat(1.7);
+        let mut gens: Vec<DVec3> = vec![];
+        for j in 0..14 {
+            let u = DVec3::new(r3.gen_range(0.08..0.92), r3.gen_range(0.08..0.92), r3.gen_range(0.08..0.92));
+            let mut p = anchor + u * width;
+            if j < 6 {
+                let k = j % 3;
+                p[k] = if j < 3 { anchor[k] } else { anchor[k] + width[k] };
+            }
+            gens.push(p);
+        }
+        let id = inputs.len();
+        inputs.push(FInput { id, kind: "onwall".into(), gens, anchor, width, dim: 3, per: false });
+    }
     // a cell with more than 256 faces (count thresholds in per-cell bookkeeping); recorded for the full run only
     if inputs_from_file.is_none() {
         let id = inputs.len();
